@@ -382,6 +382,13 @@ def hard_cases(rnd, n=None, year=2001):
         S("Maize", "Clay", seed=rnd.randrange(10 ** 6), field={"bunds": True, "z_bund": 0.2}, iwc={"wc_type": "Pct", "value": [50]},
           events=[{"from": dstr(p0), "to": dstr(p0 + _dt.timedelta(days=59)), "P": 0, "ET0": 6.5}] + [{"date": dstr(p0 + _dt.timedelta(days=60 + k)), "P": 150} for k in range(3)]),
     ]
+    cases += [
+        # low bunds overtopped on four consecutive days under a closed canopy
+        S("Maize", "Clay", seed=rnd.randrange(10 ** 6), field={"bunds": True, "z_bund": 0.05}, events=[{"date": dstr(p0 + _dt.timedelta(days=70 + k)), "P": 120} for k in range(4)]),
+        # a crop that dies of drought while a (far too small) daily irrigation is still being applied
+        S("Maize", "SandyLoam", seed=rnd.randrange(10 ** 6), regime="hot", iwc={"wc_type": "Pct", "value": [45]}, seasons=2, irr={"method": 5, "kw": {"depth": 1, "AppEff": 80}},
+          events=[{"from": f"{year}/01/01", "to": f"{year + 1}/12/31", "P": 0, "ET0": 8.0}]),
+    ]
     # shallow ponds behind bunds under a canopy (pond of the order of a day's transpiration demand during the first days of submergence)
     cases += shallow_pond_cases(rnd, year, crops=("Maize", "Maize", "Tomato"), storms=(13, 22, 25))
     rnd.shuffle(cases)
